@@ -10,8 +10,10 @@ package props
 //   json-model-decoder-differs     decodeQueryDoc j vs json.Unmarshal on hand-written and mutated JSON
 //                                  (selection objects with any combination of Alias / TypeCondition / Name keys,
 //                                  null / number / string / array items, unknown keys, wrong-typed values)
-//   json-wf-assumption-fails       a document parsed from valid UTF-8 text does not satisfy utf8CleanB, the
-//                                  hypothesis of theorem C19_roundtrip (the assumption is tested here, not proved)
+//   json-wf-assumption-fails       for a source text that is valid UTF-8, sourceCleanB (every token value of the lexer
+//                                  model is well-formed UTF-8: hypothesis of C19_parsed_document_wellformed) or utf8CleanB
+//                                  of the parsed tree (hypothesis of C19_roundtrip) is false — the assumption is tested
+//                                  here, not proved
 // Direct check of the property on the two Go trees (parsed document vs its round trip), independent of the model:
 //   json-roundtrip:selection-kind-lost            a field / fragment spread / inline fragment came back as another
 //                                                 kind (kind-by-kind comparison in impl.DocLoss)
@@ -51,7 +53,7 @@ type c19State struct {
 	findings                                            map[string]*c19Finding
 	docs, parsed, encEqual, encSkippedComments, rtEqual int
 	withSpread, withInline, lossFree                    int
-	wfTrue, wfFalse                                     int
+	wfTrue, wfFalse, srcTrue, srcFalse                  int
 	losses                                              map[string]int
 	// generator coverage
 	cov        map[string]int // documents having the feature
@@ -164,7 +166,7 @@ func (s *c19State) batch(texts []string) {
 		}
 		s.parsed++
 		parts[i] = p
-		dreq = append(dreq, "jsonenc "+p[0], "jsonrt "+p[0], "jsonwf "+p[0])
+		dreq = append(dreq, "jsonenc "+p[0], "jsonrt "+p[0], "jsonwf "+p[0], "jsonsrcwf "+impl.HexW([]byte(texts[i])))
 		idx = append(idx, i)
 	}
 	dout := c.Driver.Map(dreq)
@@ -172,7 +174,7 @@ func (s *c19State) batch(texts []string) {
 		t, p := texts[i], parts[i]
 		rep := map[string]any{"op": "jsonrt", "input_hex": impl.HexW([]byte(t)), "input": t}
 		c.Ev.Case("u"+t, true)
-		menc, mrt, mwf := dout[3*j], dout[3*j+1], dout[3*j+2]
+		menc, mrt, mwf, msrc := dout[4*j], dout[4*j+1], dout[4*j+2], dout[4*j+3]
 		if strings.Contains(p[0], "(S ") {
 			s.withSpread++
 		}
@@ -212,6 +214,22 @@ func (s *c19State) batch(texts []string) {
 			}
 		default:
 			s.keep("correspondence", "json-wf-assumption-fails", fmt.Sprintf("document %q: driver op jsonwf replied %s", t, clip(mwf, 100)), t, rep)
+		}
+		// … and of the lexer model's tokens (hypothesis of C19_parsed_document_wellformed); the theorem says
+		// sourceCleanB ⇒ utf8CleanB
+		switch {
+		case msrc == "1":
+			s.srcTrue++
+			if mwf == "0" {
+				s.keep("correspondence", "json-wf-assumption-fails", fmt.Sprintf("document %q: sourceCleanB holds but utf8CleanB of the parsed tree does not (contradicts C19_parsed_document_wellformed: the driver's tree is not the parser model's?)", t), t, rep)
+			}
+		case msrc == "0":
+			s.srcFalse++
+			if validUTF8(t) {
+				s.keep("correspondence", "json-wf-assumption-fails", fmt.Sprintf("document %q is valid UTF-8 but the lexer model produces a token whose value is not (sourceCleanB = false)", t), t, rep)
+			}
+		default:
+			s.keep("correspondence", "json-wf-assumption-fails", fmt.Sprintf("document %q: driver op jsonsrcwf replied %s", t, clip(msrc, 100)), t, rep)
 		}
 		// (iv) the property itself, on the two Go trees
 		if strings.HasPrefix(p[2], "E,") {
@@ -937,7 +955,7 @@ func checkC19(c *Ctx) {
 		"with_fragment_spread": s.withSpread, "with_inline_fragment": s.withInline,
 		"model_encoding_equal_bytes": s.encEqual, "encoding_not_compared_comments": s.encSkippedComments,
 		"model_roundtrip_equal": s.rtEqual, "loss_free": s.lossFree,
-		"utf8CleanB_true": s.wfTrue, "utf8CleanB_false": s.wfFalse,
+		"utf8CleanB_true": s.wfTrue, "utf8CleanB_false": s.wfFalse, "sourceCleanB_true": s.srcTrue, "sourceCleanB_false": s.srcFalse,
 		"loss_classes": s.losses, "findings_cases": found,
 	}
 	c.Ev.Extra["c19_shape_coverage"] = map[string]any{
@@ -969,11 +987,11 @@ func checkC19(c *Ctx) {
 		c.Report("runtime", "json-generator-coverage", fmt.Sprintf("only %d of 27 sibling-kind triples and %d of 9 pairs were exercised at depth >= 4", len(s.tri4), len(s.bi4)), map[string]any{"op": "coverage"})
 	}
 	c.Ev.Assume = append(c.Ev.Assume,
-		"theorem C19_roundtrip assumes utf8CleanB d (every string of the tree is well-formed UTF-8); that the parser returns such a tree for every source text that is valid UTF-8 is tested on every parsed document of this run (json-wf-assumption-fails), not proved",
+		"theorem C19_roundtrip assumes utf8CleanB d (every string of the tree is well-formed UTF-8); C19_parsed_document_wellformed proves it for every parsed document from sourceCleanB inp (every token value of the lexer model is well-formed UTF-8); that sourceCleanB holds for every source text that is valid UTF-8 is tested on every source of this run (json-wf-assumption-fails), not proved",
 		"the theorems compose encoder and decoder on the JSON value; that json.Marshal writes exactly the text of that value and json.Unmarshal reads it back is tested (byte-equal encodings, equal decodings of the texts), not proved")
 	c.Ev.Rule = "a case is one parsed document (compared with the model and judged), one JSON decoder input (compared with the model) or one string; distinct = distinct texts"
-	fmt.Printf("C19: documents tried=%d parsed=%d (spread %d, inline %d) model-encoding-equal=%d (comments skipped %d) model-roundtrip-equal=%d loss-free=%d utf8CleanB true/false=%d/%d\n",
-		s.docs, s.parsed, s.withSpread, s.withInline, s.encEqual, s.encSkippedComments, s.rtEqual, s.lossFree, s.wfTrue, s.wfFalse)
+	fmt.Printf("C19: documents tried=%d parsed=%d (spread %d, inline %d) model-encoding-equal=%d (comments skipped %d) model-roundtrip-equal=%d loss-free=%d utf8CleanB true/false=%d/%d sourceCleanB true/false=%d/%d\n",
+		s.docs, s.parsed, s.withSpread, s.withInline, s.encEqual, s.encSkippedComments, s.rtEqual, s.lossFree, s.wfTrue, s.wfFalse, s.srcTrue, s.srcFalse)
 	fmt.Printf("C19: shape: depth>=4 field/spread/inline docs=%d/%d/%d, no-type-condition=%d, spread/inline with directives=%d/%d, alias =/≠ name=%d/%d, sibling triples at depth>=4: %d/27, pairs: %d/9\n",
 		s.cov["fd>=4"], s.cov["sd>=4"], s.cov["id>=4"], s.cov["notc"], s.cov["sdir"], s.cov["idir"], s.cov["aeq"], s.cov["ane"], len(s.tri4), len(s.bi4))
 	fmt.Printf("C19: decoder inputs=%d equal=%d both-reject=%d unmodelled=%d outside-json-type=%d\n", s.decInputs, s.decEqual, s.decBothError, s.decUnmodelled, s.decOutside)
